@@ -13,7 +13,7 @@ theorem src_c12_footprint (W : World) :
     (∀ e ℓ st, (Gen.Code.NewMnemonicByEntropy W e ℓ st).2 = st) ∧
     (∀ n ℓ st, (Gen.Code.NewMnemonic W n ℓ st).2.pkg = st.pkg) ∧
     (∀ m p st, (Gen.Code.MnemonicToSeed W m p st).2 = st) ∧
-    (∀ i st, (Gen.Code.Language_String W i st).2 = st) ∧
+    (∀ i st, isInt64 i → (Gen.Code.Language_String W i st).2 = st) ∧
     (∀ s ℓ st, (Gen.Code.CheckMnemonic W s ℓ st).2 = st ∨
       (Gen.Code.CheckMnemonic W s ℓ st).2 = { st with pkg := (Model.mapping st.pkg ℓ).1 }) ∧
     (∀ s ℓ st, (Gen.Code.IsMnemonicValid W s ℓ st).2 = st ∨
@@ -30,7 +30,7 @@ theorem src_c12_footprint (W : World) :
   · intro e ℓ st; rw [refine_NewMnemonicByEntropy]
   · intro n ℓ st; rw [refine_NewMnemonic]; rfl
   · intro m p st; rw [refine_MnemonicToSeed]
-  · intro i st; rw [refine_Language_String]
+  · intro i st hi; rw [refine_Language_String W i st hi]
   · intro s ℓ st
     rw [refine_CheckMnemonic]
     rcases hchk s ℓ st with h | h
